@@ -114,7 +114,16 @@ macro_rules! elem {
 elem!(u8, u16, u32, u64, usize, u128);
 
 /// type-erased wavelet tree
-pub trait DynTree: Send + Sync {
+#[cfg(feature = "syncassert")]
+pub trait MaybeSync: Send + Sync {}
+#[cfg(feature = "syncassert")]
+impl<T: Send + Sync> MaybeSync for T {}
+#[cfg(not(feature = "syncassert"))]
+pub trait MaybeSync {}
+#[cfg(not(feature = "syncassert"))]
+impl<T> MaybeSync for T {}
+
+pub trait DynTree: MaybeSync {
     fn q(&self, op: &str, a: &[u128], s: &str) -> String;
     fn dump(&self) -> String;
     fn enc(&self) -> Vec<u8>;
